@@ -30,7 +30,29 @@ def response_classes():
 
 
 def shards(tier):
-    return [c.__module__ + ":" + c.__name__ for c in response_classes()] + ["__ctor__"]
+    return [c.__module__ + ":" + c.__name__ for c in response_classes()] + ["__ctor__", "__cross__:fwd", "__cross__:rev"]
+
+
+def run_cross(res, direction):
+    """History dimension: interpretation must not depend on which other response classes were
+    used before (class-level caches, shared tables).  All classes are evaluated one after the
+    other on all outcomes inside ONE process, in declaration order and in reverse order."""
+    classes = response_classes()
+    if direction == "rev":
+        classes = list(reversed(classes))
+    for cls in classes:
+        spec = RESPONSES.get(cls.__name__)
+        if spec is None:
+            continue
+        n0 = len(res["violations"])
+        for o in _outcomes():
+            obs = check_point(cls, spec, o, res)
+            res["evaluations"] += 1
+            res["distinct"].add(("cross",) + obs[:2])
+        for v in res["violations"][n0:]:
+            v["case"]["cross"] = direction
+            v["key"] = v["key"].replace("C06:", "C06:after-other-classes:", 1)
+    sample(res, {"cross_class_order": direction, "classes": len(classes)})
 
 
 def _find(name):
@@ -207,6 +229,9 @@ def check_point(cls, spec, o, res):
 
 def run_shard(shard):
     res = new_result()
+    if shard.startswith("__cross__"):
+        run_cross(res, shard.split(":")[1])
+        return res
     if shard == "__ctor__":
         from dali import frame
         bads = [0, 255, b"\x00", "yes", frame.Frame(8, 1), frame.ForwardFrame(16, 1), object(), 1.5, True, [1]]
@@ -244,6 +269,9 @@ def run_shard(shard):
 
 def replay(case):
     res = new_result()
+    if "cross" in case:
+        run_cross(res, case["cross"])
+        return res["violations"]
     if "ctor" in case:
         r = run_shard("__ctor__")
         return [v for v in r["violations"] if v["case"]["cls"] == case["cls"] and v["case"]["idx"] == case["idx"]]
